@@ -1245,3 +1245,47 @@ def raw_header_fields(ctx):
         ctx.require(got == v, q, 'the raw header field %s = %r is stored as %s' % (k, v[:12], show(term(got))[:50]), fn,
                     "a block whose nonce bytes are b'dcba' parses with nonce ab cd (2 bytes): nonce_int is wrong and serialize() raises - about one header in 18000")
     ctx.floor(n, 6, 'header fields')
+
+
+@PROP.obligation('C06.txid-follows-scripts')
+def txid_follows_scripts(ctx):
+    """Transaction.txid is a stored value, filled once by the constructor. The id of a legacy transaction commits to the scriptSigs, so
+    every method of Transaction that rewrites the unlocking scripts of its inputs (calls Input.update_scripts on them) assigns self.txid
+    afterwards on every path - directly or through a method that does - otherwise the object keeps reporting the id of the transaction it
+    was before signing."""
+    methods = {k: ctx.repo.func('transactions:Transaction.' + k) for k in ctx.repo.methods_of('transactions:Transaction')}
+    setters = set(k for k, f in methods.items() if any(isinstance(a, ast.Assign) and any(norm(t) == 'self.txid' for t in a.targets) for a in ast.walk(f)))
+    n = 0
+    for name, f in sorted(methods.items()):
+        if name == '__init__':
+            continue
+        g = build_cfg(f)
+        upd, sets = [], []
+        for node in g.nodes:
+            if node.ast is None:
+                continue
+            for y in ast.walk(node.ast):
+                if isinstance(y, ast.Call) and isinstance(y.func, ast.Attribute) and y.func.attr == 'update_scripts' and 'self.inputs' in norm(y.func.value):
+                    upd.append((node, y))
+                if isinstance(y, ast.Assign) and any(norm(t) == 'self.txid' for t in y.targets):
+                    sets.append(node.id)
+                if isinstance(y, ast.Call) and isinstance(y.func, ast.Attribute) and norm(y.func.value) == 'self' and y.func.attr in setters and y.func.attr != name:
+                    sets.append(node.id)
+        if not upd:
+            continue
+        # only methods that CHANGE the signatures (sign): regenerating scripts from unchanged signatures gives the same bytes
+        if not any(isinstance(a, ast.Assign) and any(isinstance(t, ast.Attribute) and t.attr == 'signatures' for t in a.targets) for a in ast.walk(f)):
+            ctx.saw('Transaction.%s regenerates scripts without changing signatures: not a change of the id' % name)
+            continue
+        exits = [x.id for x in g.nodes if x.kind == 'return'] + [g.exit_return]
+        done = set()
+        for node, y in upd:
+            if id(y) in done:
+                continue
+            done.add(id(y))
+            n += 1
+            p_ = g.path_avoiding(exits, via=sets, start=node.id, skip_exc=True)
+            ctx.saw('Transaction.%s rewrites input scripts (`%s`); txid assigned afterwards on every path: %s' % (name, norm(y)[:50], p_ is None))
+            ctx.require(p_ is None, 'transactions:Transaction.' + name, 'the scripts of an input are rewritten (`%s`) and the method can return without assigning self.txid' % norm(y)[:60], y,
+                        't = Transaction(); t.add_input(...); t.add_output(...); t.sign(k): t.txid (and as_dict()["txid"], info()) is still the id the object had before signing, not the double-SHA256 of t.raw()')
+    ctx.floor(n, 1, 'script rewrites in methods that change signatures')
